@@ -83,7 +83,7 @@ TransportClosedByServe(p) ==      \* defer l.Close() of the serve call, reported
   /\ spc[p] = "closed"
   /\ IF Mode = "tcp" THEN lsnOpen' = [lsnOpen EXCEPT ![slsn[p]] = FALSE] /\ UNCHANGED pcOpen
                      ELSE pcOpen' = FALSE /\ UNCHANGED lsnOpen
-  /\ UNCHANGED <<fields, pend, pcDL, pin, svars, wvars, kvars, shvars, cvars, hist, act>>
+  /\ UNCHANGED <<fields, pend, pcDL, pcWDL, pin, svars, wvars, kvars, shvars, cvars, hist, act>>
 
 (* Init with every variable primed (TLC cannot prime a defined state predicate); generated from Server!Init *)
 ResetAll ==
@@ -92,11 +92,11 @@ ResetAll ==
   /\ cfgBad' = FALSE
   /\ pcField' = (Mode = "pc")                        \* srv.PacketConn # nil
   /\ lsnOpen' = [ll \in Lsn |-> TRUE] /\ pend' = [ll \in Lsn |-> {}]
-  /\ pcOpen' = TRUE /\ pcDL' = "none" /\ pin' = 0
+  /\ pcOpen' = TRUE /\ pcDL' = "none" /\ pcWDL' = "none" /\ pin' = 0
   /\ spc' = [p \in P |-> "idle"] /\ sgen' = [p \in P |-> 0] /\ sres' = [p \in P |-> "-"]
   /\ wg' = [p \in P |-> 0] /\ scur' = [p \in P |-> 0] /\ serr' = [p \in P |-> "-"] /\ slsn' = [p \in P |-> 0]
   /\ sbad' = [p \in P |-> FALSE]
-  /\ wpc' = [c \in C |-> "none"] /\ wown' = [c \in C |-> 0] /\ dl' = [c \in C |-> "none"]
+  /\ wpc' = [c \in C |-> "none"] /\ wown' = [c \in C |-> 0] /\ dl' = [c \in C |-> "none"] /\ wdl' = [c \in C |-> "none"]
   /\ copen' = [c \in C |-> TRUE] /\ hrep' = [c \in C |-> FALSE] /\ hclosed' = [c \in C |-> FALSE] /\ hij' = [c \in C |-> FALSE]
   /\ kpc' = [k \in K |-> "none"] /\ kown' = [k \in K |-> 0] /\ nread' = 0
   /\ shpc' = [h \in H |-> "idle"] /\ shres' = [h \in H |-> "-"] /\ shgen' = [h \in H |-> 0]
@@ -156,10 +156,10 @@ EventStep ==
           [] Ev.res = "timeout" -> WReadTimeout(Ev.c)
           [] OTHER              -> WReadEOF(Ev.c)
   \/ Is("handler.enter")  /\ IF Ev.c # 0 THEN Ev.c \in C /\ WHandlerEnter(Ev.c) ELSE Ev.k \in K /\ KStartEnter(Ev.k)
-  \/ Is("conn.write")     /\ Ev.c \in C /\ WReply(Ev.c) /\ (Ev.res = "ok") = (copen[Ev.c] /\ cst[Ev.c] # "closed")
+  \/ Is("conn.write")     /\ Ev.c \in C /\ WReply(Ev.c) /\ (Ev.res = "ok") = (copen[Ev.c] /\ wdl[Ev.c] # "past" /\ cst[Ev.c] # "closed")
   \/ Is("conn.close")     /\ Ev.c \in C /\ (IF wpc[Ev.c] = "inh" THEN WHClose(Ev.c) ELSE WClose(Ev.c))
   \/ Is("handler.exit")   /\ IF Ev.c # 0 THEN Ev.c \in C /\ WHandlerExit(Ev.c) ELSE Ev.k \in K /\ KExit(Ev.k)
-  \/ Is("pc.write")       /\ Ev.k \in K /\ KReply(Ev.k) /\ (Loose \/ (Ev.res = "ok") = pcOpen)
+  \/ Is("pc.write")       /\ Ev.k \in K /\ KReply(Ev.k) /\ (Loose \/ (Ev.res = "ok") = (pcOpen /\ pcWDL # "past"))
   \/ Is("conn.unreg")     /\ Ev.c \in C /\ WUnreg(Ev.c)
   \/ Is("worker.exit")    /\ IF Ev.c # 0 THEN Ev.c \in C /\ WExit(Ev.c) ELSE Ev.k \in K /\ KGone(Ev.k)
   \/ Is("serve.drained")  /\ Ev.p \in P /\ SDrain(Ev.p)
